@@ -11,6 +11,14 @@ TECH = ("bounded symbolic execution of the real Go code (go/ssa of /repo's worki
 
 # id -> (level text, level note, design ref)
 CLAIMED = {
+ "C11": ("Map keys of up to 3 (thorough 4) arbitrary bytes, array indices < 1000 and every journal file name built from "
+         "(node, fork, chunk?, 10-hex uniquifier?, prefix, state) are symbolic; the real makeKeySafe/url.PathEscape, forkString, "
+         "ForkIdString, encodeJournalName, parseRunFilename (regex run by a symbolic Pike VM over Go's own compiled program), "
+         "find, getFork, Metadata.cache are executed and the solver shows the name is injective and parses back to exactly its "
+         "writer; counterexamples replay natively. Bounded.",
+         "Trusted: go/ssa lowering, symgo, the regex VM and Replacer models (validated by native replay of witnesses), z3. "
+         "Outside: indices >= 1000, nested fork ids in routing, file-name length limits, directory listing.",
+         "DESIGN.md §4 C11"),
  "C18": ("Every byte string up to the stated length (quick 4, thorough 5 bytes; formatArgs 2+1+1 / 2+2+1) is pushed "
          "symbolically through the real appendShellSafeQuote/shellSafeQuote/formatArgs and a POSIX double-quote "
          "reference de-quoter; the solver shows on every path that sh recovers the original bytes, or returns the bytes "
